@@ -267,6 +267,13 @@ class Exec:
             for t in s.targets: self.delete(t, env, heap)
             return
         if isinstance(s, ast.Pass): return
+        if isinstance(s, ast.Try):
+            # only the debugging idiom `try: ... except: breakpoint()` is accepted; the handler is dropped
+            ok = (not s.orelse and not s.finalbody and len(s.handlers) == 1 and len(s.handlers[0].body) == 1 and
+                  isinstance(s.handlers[0].body[0], ast.Expr) and isinstance(s.handlers[0].body[0].value, ast.Call) and
+                  getattr(s.handlers[0].body[0].value.func, 'id', None) == 'breakpoint')
+            if not ok: raise Unsupported(f'try statement at line {s.lineno}')
+            self.block(s.body, env, heap); return
         raise Unsupported(f'statement {type(s).__name__} at line {s.lineno}')
 
     def assign(self, t, v, env, heap):
@@ -431,6 +438,11 @@ class Exec:
             return v
         if isinstance(n, (ast.DictComp, ast.SetComp)):
             return self.comprehension(n, env, heap)
+        if isinstance(n, ast.ListComp):
+            # a list of keys: only usable as an iterable of keys afterwards
+            st = self.comprehension(n, env, heap)
+            dom = heap.sets[st.oid]
+            return KeyIter(lambda k, dom=dom: z3.Select(dom, k))
         if isinstance(n, ast.List):
             # [*dct, *other] : concatenation of key iterables
             if n.elts and all(isinstance(e, ast.Starred) for e in n.elts):
@@ -642,6 +654,8 @@ class Exec:
         guard = it.member(k0)
         for cond in g.ifs:
             guard = z3.And(guard, truth(m.expr(cond, guard)))
+        if isinstance(n, ast.ListComp):
+            n = ast.SetComp(elt=n.elt, generators=n.generators)
         if isinstance(n, ast.DictComp):
             kexpr = m.expr(n.key, guard)
             if not (z3.is_expr(kexpr) and kexpr.eq(k0)):
@@ -839,13 +853,14 @@ def _exc_name(e):
     return 'Exception'
 
 
-def get_function_ast(func=None, source=None):
-    """FunctionDef of a real function (via inspect) or of generated source text."""
+def get_function_ast(func=None, source=None, name=None):
+    """FunctionDef of a real function (via inspect) or of generated source text (template expansion)."""
     if source is None:
         source = inspect.getsource(func)
+        name = None
     source = textwrap.dedent(source)
     mod = ast.parse(source)
     for node in mod.body:
-        if isinstance(node, ast.FunctionDef):
+        if isinstance(node, ast.FunctionDef) and (name is None or node.name == name):
             return node, source
     raise Unsupported('no function definition found')
